@@ -157,8 +157,45 @@ impl TryFrom<&Value> for f64 {
                 Ok(f64::try_from(&Value::Text(s))?)
             }
             Value::Number(v) => Ok(*v),
-            Value::Text(v) => Ok(v.parse::<f64>().unwrap_or(f64::NAN)),
+            Value::Text(v) => Ok(string_to_number(v)),
         }
+    }
+}
+
+/// S? '-'? Number S?, anything else is NaN
+///
+/// [function: number](https://www.w3.org/TR/1999/REC-xpath-19991116/#function-number)
+fn string_to_number(value: &str) -> f64 {
+    let trimmed = value.trim_matches(|c| matches!(c, ' ' | '\t' | '\r' | '\n'));
+    let digits = trimmed.strip_prefix('-').unwrap_or(trimmed);
+    let valid = digits.chars().all(|c| c.is_ascii_digit() || c == '.')
+        && digits.chars().any(|c| c.is_ascii_digit())
+        && digits.chars().filter(|c| *c == '.').count() <= 1;
+    if valid {
+        trimmed.parse::<f64>().unwrap_or(f64::NAN)
+    } else {
+        f64::NAN
+    }
+}
+
+/// closest integer, ties toward positive infinity
+///
+/// [function: round](https://www.w3.org/TR/1999/REC-xpath-19991116/#function-round)
+pub fn round(value: f64) -> f64 {
+    if value.is_nan() || value.is_infinite() {
+        return value;
+    }
+
+    let floor = value.floor();
+    let rounded = if value - floor >= 0.5 {
+        floor + 1f64
+    } else {
+        floor
+    };
+    if rounded == 0f64 && value.is_sign_negative() {
+        -0f64
+    } else {
+        rounded
     }
 }
 
@@ -273,7 +310,7 @@ impl ops::Neg for Value {
 
     fn neg(self) -> Self::Output {
         let a = f64::try_from(&self).unwrap();
-        Value::Number(0f64 - a)
+        Value::Number(-a)
     }
 }
 
